@@ -26,7 +26,7 @@ EXPLANATION = (
     "dialect differences between python re/numpy and rust."
 )
 LEVEL_RULE = "one obligation per (check, option assignment, backend) / signature / twin effect site"
-FLOORS = {"R1": 40, "R2": 1, "R3": 40, "R4": 10}
+FLOORS = {"R1": 40, "R2": 1, "R3": 40, "R4": 10, "R5": 4, "R6": 2}
 
 PD = "pandera/backends/pandas/builtin_checks.py"
 PL = "pandera/backends/polars/builtin_checks.py"
@@ -243,6 +243,78 @@ def _early_return_tests(f):
     return sorted(out)
 
 
+NULL_OPS = {"dropna", "drop_nulls", "is_not_null", "is_null", "notna", "isna", "notnull", "isnull", "fill_null", "fillna", "drop_nans"}
+
+
+def r5_uniqueness_nulls(ctx):
+    """Uniqueness means the same on both backends with respect to nulls: pandas `duplicated()` and polars
+    `is_duplicated()` both count repeated nulls as duplicates, so neither uniqueness check may filter or mask nulls."""
+    ix = ctx.ix
+    sites = [("pandera/backends/pandas/array.py::ArraySchemaBackend", "check_unique"),
+             (PDC, "check_column_values_are_unique"),
+             ("pandera/backends/polars/components.py::ColumnBackend", "check_unique"),
+             (PLC, "check_column_values_are_unique")]
+    for q, name in sites:
+        f = ix.cls(q).lookup(name)
+        if f is None:
+            raise AnalysisError(f"{q}.{name} missing")
+        ctx.touched(f)
+        dup = [c for c in calls_in(f.node, nested=True) if callee_last(c) in ("duplicated", "is_duplicated", "is_unique", "unique", "n_unique")]
+        nulls = [c for c in calls_in(f.node, nested=True) if callee_last(c) in NULL_OPS]
+        flavour = "polars" if "/polars/" in q else "pandas"
+        ctx.ob("R5", f, f"{flavour} {name}: duplicates are detected on the unfiltered values (nulls count as equal)", bool(dup) and not nulls,
+               f"{[callee_last(c) for c in dup]} on the column as is" if dup and not nulls else
+               (f"`{txt(nulls[0])[:70]}` removes / masks nulls before or after duplicate detection: repeated nulls are duplicates for the other "
+                "backend (pandas Series.duplicated and polars is_duplicated treat nulls as equal), so the two backends disagree on unique+nullable columns"
+                if nulls else "no duplicate detection call found"), f.loc(nulls[0]) if nulls else "")
+
+
+def r6_default_declared(ctx):
+    """Both containers decide `this column declares a default` by `default is (not) None` alone - a truthiness test
+    drops the legal defaults 0 / False / ''."""
+    ix = ctx.ix
+    for q, name in ((PDC, "set_defaults"), (PLC, "set_default")):
+        f = ix.cls(q).lookup(name)
+        if f is None:
+            raise AnalysisError(f"{q}.{name} missing")
+        ctx.touched(f)
+        fx = FlowExpander(f.node)
+        calls = [c for c in calls_in(f.node) if isinstance(c.func, ast.Attribute) and (
+            callee_last(c) == "set_default" or (callee_last(c) in ("fillna", "fill_null") and any("default" in txt(a) for a in c.args)))]
+        flavour = "polars" if "/polars/" in q else "pandas"
+        if not calls:
+            ctx.ob("R6", f, f"{flavour} {name}: component defaults are applied", False, "no set_default / fillna(default) call")
+            continue
+        for c in calls:
+            st = c
+            from ..util import enclosing_stmt
+            pc = path_condition(fx.cfg, fx.cfg.node_of(enclosing_stmt(c)).id, expand=fx, keep=lambda t, n: ".default" in t or "default" in t.split("(")[0])
+            # comprehension filters feeding the loop variable count as guards too
+            comp_atoms = []
+            for n in ast.walk(f.node):
+                if isinstance(n, (ast.ListComp, ast.GeneratorExp)):
+                    for g in n.generators:
+                        for cond in g.ifs:
+                            for a in (cond.values if isinstance(cond, ast.BoolOp) else [cond]):
+                                if "default" in txt(a):
+                                    comp_atoms.append(a)
+            from ..util import canon_atom, strip_not
+            atoms = []
+            for a in comp_atoms:
+                e, pol = strip_not(a)
+                t, p2 = canon_atom(e)
+                atoms.append((t, pol == p2))
+            names = list(pc[0])
+            sat = next(iter(pc[1])) if len(pc[1]) == 1 else ()
+            atoms += list(zip(names, sat))
+            tests = [(t, v) for t, v in atoms if not t.startswith("hasattr(")]
+            ok = bool(tests) and all(t.endswith(".default is None") and v is False for t, v in tests)
+            ctx.ob("R6", f, f"{flavour} {name}: a default is declared iff `default is not None`", ok,
+                   f"guard {tests}" if ok else
+                   f"the default is applied under {tests}: a test other than `default is not None` (e.g. truthiness) treats the legal defaults "
+                   "0 / False / '' as undeclared on this backend only, so the parsed tables differ between pandas and polars", f.loc(c))
+
+
 def r1_pyspark(ctx):
     """thorough: pyspark forms where expressible (best effort, never a VIOLATION source on unknown forms)."""
     ix = ctx.ix
@@ -269,6 +341,8 @@ def run(ctx):
     r2_embedding(ctx)
     r3_signatures(ctx)
     r4_twins(ctx)
+    r5_uniqueness_nulls(ctx)
+    r6_default_declared(ctx)
     if ctx.tier == "thorough":
         r1_pyspark(ctx)
     ctx.assume("pandas operators/str accessors and polars expression methods have their documented element-wise meaning")
